@@ -284,6 +284,8 @@ def run(rep):
     rep.extra['format_grid'] = len(fg)
     calls += fg
     calls += object_algebra(rng, 700 if quick else 20000)
+    # tokens and nodes of about 2^25 bytes (where the compact span encoding switches representation) in a few positions
+    vlib.huge_token_probe(rep, ("parse",) if quick else ("lex", "parse", "diag"))
     lines = [vlib.eval_line('local r = (%s); if std.isFunction(r) then "function" else r' % c, max_stack=400) for c in calls]
     outs = vlib.impl(lines, timeout=1500, mem_limit=MEM_LIMIT)
     for c, a in zip(calls, outs):
